@@ -24,7 +24,7 @@ pub struct MsgPlan {
 
 #[derive(Clone, Debug, serde::Serialize)]
 pub struct Plan {
-    pub type_name: &'static str,
+    pub type_name: String,
     pub align: usize,
     pub min_size: usize,
     pub msgs: Vec<MsgPlan>,
@@ -220,7 +220,7 @@ pub fn make_plan<M: ZooMsg + ?Sized>(d: &mut Decider, stats: &mut Stats, nspec: 
     let max_recv = longest + rx[d.weighted(St::Cfg, &[4, 2, 2, 2, 1, 1])];
     let retain_p = [0u32, 1, 3][d.weighted(St::Cfg, &[3, 1, 1])];
     let recv_cap = if explicit { Some(longest.max(M::MIN_SIZE) + [0usize, 1, M::ALIGN, 7, longest][d.weighted(St::Cfg, &[4, 1, 2, 1, 1])]) } else { None };
-    Plan { type_name: M::NAME, align: M::ALIGN, min_size: M::MIN_SIZE, msgs, max_send, max_recv, retain_p, send_buf_len: cap, send_cap, recv_cap, anomalies }
+    Plan { type_name: M::name(), align: M::ALIGN, min_size: M::MIN_SIZE, msgs, max_send, max_recv, retain_p, send_buf_len: cap, send_cap, recv_cap, anomalies }
 }
 
 /// What the harness does after a failed `send()` / `recv()` (seeded policy).
